@@ -129,7 +129,7 @@ func (e2eFamily) Gen(n int, seed int64, mode, tier string) []interface{} {
 					}
 				}
 				// some client reactions, interleaved
-				for r := 0; r < 1+rng.Intn(4) && len(fl2) > 0; r++ {
+				for r := 0; r < 2+rng.Intn(5) && len(fl2) > 0; r++ {
 					x := fl2[rng.Intn(len(fl2))]
 					if gone[x.c] || x.phase == 2 {
 						continue
@@ -192,8 +192,20 @@ func (e2eFamily) Gen(n int, seed int64, mode, tier string) []interface{} {
 			s.sub("subB", []string{"t/b/#"}, []int{0})
 			s.gossipAll()
 			s.connect(0, "pub", "c-pub", "", 60, nil)
+			s.connect(0, "twin", "c-pub", "tw", 60, nil) // same client id, other mount point
 			var q2 []int
 			for k := 0; k < 3+rng.Intn(10); k++ {
+				if rng.Intn(6) == 0 {
+					m := 100 + rng.Intn(3)
+					if len(q2) > 0 && rng.Intn(2) == 0 {
+						m = q2[rng.Intn(len(q2))]
+					}
+					if rng.Intn(2) == 0 {
+						s.add(e2eOp{Op: "send", C: "twin", P: "pub", T: "t/a", Pl: fmt.Sprintf("tw%d", k), Q: 2, Mid: m})
+					} else {
+						s.ackRaw("twin", "pubrel", m)
+					}
+				}
 				topic := []string{"t/a", "t/b/x", "u"}[rng.Intn(3)]
 				switch a := rng.Intn(12); {
 				case a < 2:
@@ -244,10 +256,21 @@ func (e2eFamily) Gen(n int, seed int64, mode, tier string) []interface{} {
 			if i%8 == 7 && tier == "thorough" {
 				cnt = 520
 			}
+			if rng.Intn(3) == 0 && nsub > 1 {
+				// one subscriber's connection starts failing writes while its session stays registered
+				s.add(e2eOp{Op: "failwrites", C: fmt.Sprintf("sub%d", rng.Intn(nsub))})
+			}
 			for k := 0; k < cnt; k++ {
 				q := rng.Intn(3)
 				c := fmt.Sprintf("pub%d", rng.Intn(np))
-				m := s.pub(c, fmt.Sprintf("t/%d", k%7), fmt.Sprintf("m%d", k), q, false)
+				pl, ret := fmt.Sprintf("m%d", k), false
+				if cnt < 100 && rng.Intn(5) == 0 {
+					ret = true
+					if rng.Intn(2) == 0 {
+						pl = ""
+					}
+				}
+				m := s.pub(c, fmt.Sprintf("t/%d", k%7), pl, q, ret)
 				if q == 2 {
 					s.ackRaw(c, "pubrel", m)
 				}
@@ -323,7 +346,36 @@ func (e2eFamily) Gen(n int, seed int64, mode, tier string) []interface{} {
 			s.pub("watch", "x/y", "after", 0, false)
 			if nodes > 1 {
 				s.gossipAll()
+				if rng.Intn(2) == 0 {
+					// node 1 fails; node 0 cleans up after it; a third party (node 1's own view is irrelevant)
+					s.add(e2eOp{Op: "peer_leave", N: 0, Src: 1})
+					s.pub("watch", "x/y", "after-failure", 0, false)
+				}
 			}
+			s.checks()
+			out = append(out, s.in)
+		case "takeover3":
+			// C12 with reordered gossip over three nodes: the tombstone of the displaced session
+			// reaches a bystander before the (older) creation it removes
+			s := newScript(rng, 3)
+			s.connect(0, "old", "shared", "", 60, nil)
+			s.sub("old", []string{"t/#"}, []int{0})
+			s.add(e2eOp{Op: "gossip", Src: 0, N: 1})
+			s.connect(1, "new", "shared", "", 60, nil)
+			s.sub("new", []string{"t/#"}, []int{0})
+			if rng.Intn(2) == 0 {
+				s.add(e2eOp{Op: "gossip", Src: 1, N: 2})
+				s.add(e2eOp{Op: "gossip", Src: 0, N: 2})
+			} else {
+				s.add(e2eOp{Op: "gossip", Src: 0, N: 2})
+				s.add(e2eOp{Op: "gossip", Src: 1, N: 2})
+			}
+			s.add(e2eOp{Op: "gossip", Src: 1, N: 0})
+			s.connect(2, "pub", "c-pub", "", 60, nil)
+			s.pub("pub", "t/x", "hello", 0, false)
+			s.add(e2eOp{Op: "send", C: "old", P: "ping"})
+			s.gossipAll()
+			s.pub("pub", "t/x", "again", 0, false)
 			s.checks()
 			out = append(out, s.in)
 		case "takeover":
@@ -361,6 +413,18 @@ func (e2eFamily) Gen(n int, seed int64, mode, tier string) []interface{} {
 				conns = append(conns, c)
 				s.pub("watch", "t/x", fmt.Sprintf("after-gen%d", j), 0, false)
 			}
+			if rng.Intn(3) == 0 {
+				// the newest session goes away before the displaced ones ping
+				last := conns[len(conns)-1]
+				if rng.Intn(2) == 0 {
+					s.add(e2eOp{Op: "send", C: last, P: "disc"})
+				} else {
+					s.add(e2eOp{Op: "eof", C: last})
+				}
+				if nodes > 1 {
+					s.gossipAll()
+				}
+			}
 			for _, old := range conns {
 				s.add(e2eOp{Op: "send", C: old, P: "ping"})
 			}
@@ -391,6 +455,10 @@ func (e2eFamily) Gen(n int, seed int64, mode, tier string) []interface{} {
 			}
 			s.connect(host, "dying", "c-dying", mp, 60, &jPub{T: wt, P: "gone", Q: int32(rng.Intn(3)), R: rng.Intn(2) == 0})
 			s.gossipAll()
+			if rng.Intn(3) == 0 {
+				s.connect(rng.Intn(nodes), "same-id-other-tenant", "c-dying", "tq", 60, nil)
+				s.gossipAll()
+			}
 			switch e := rng.Intn(5); {
 			case e == 0:
 				s.add(e2eOp{Op: "eof", C: "dying"})
